@@ -556,6 +556,37 @@ func run(c *runner.Ctx) {
 		c.Done(true, 1)
 	}
 
+	// long collections: n elements followed by further fields (any per-call state a dumper keeps - depth, comma or
+	// brace counters, scratch buffers - is exercised over many elements of one value)
+	c.Space("long-collections")
+	elems := append(append([]ty{}, structs...), ptrTo(structs[0]), ptrTo(structs[4]), tString, tBool, tInt, sliceOf(tInt), mapOf(tString.t, tInt), sliceOf(structs[0]))
+	for _, e := range elems {
+		for _, n := range []int{31, 32, 33, 40, 64, 65, 130} {
+			if !c.Take() {
+				continue
+			}
+			t := mkStruct([]fld{{sliceOf(e), true}, {structs[4], true}, {mapOf(tInt.t, e), true}, {ptrTo(structs[3]), true}, {mapOf(tString.t, e), true}, {structs[1], true}})
+			v := reflect.New(t.t).Elem()
+			sl := reflect.MakeSlice(t.t.Field(0).Type, 0, n)
+			mi := reflect.MakeMap(t.t.Field(2).Type)
+			ms := reflect.MakeMap(t.t.Field(4).Type)
+			for i := 0; i < n; i++ {
+				sl = reflect.Append(sl, val(e.t, i))
+				mi.SetMapIndex(reflect.ValueOf(i-3), val(e.t, i+1))
+				ms.SetMapIndex(reflect.ValueOf(fmt.Sprintf("k%d", i)), val(e.t, i+2))
+			}
+			v.Field(0).Set(sl)
+			v.Field(1).Set(val(t.t.Field(1).Type, 1))
+			v.Field(2).Set(mi)
+			v.Field(3).Set(val(t.t.Field(3).Type, 1))
+			v.Field(4).Set(ms)
+			v.Field(5).Set(val(t.t.Field(5).Type, 2))
+			checkFixed(c, ty{t.t, fmt.Sprintf("%s with %d elements per collection", t.desc, n), true}, v.Interface())
+			checkFixed(c, ty{t.t, fmt.Sprintf("*%s with %d elements per collection", t.desc, n), true}, v.Addr().Interface())
+			c.Done(true, 2)
+		}
+	}
+
 	c.Space("no-fields")
 	if c.Take() {
 		evalType(mkStruct(nil), []int{0})
@@ -766,7 +797,7 @@ func main() {
 			"level k+1 = {[]e, map[string]e, map[int64]e, struct{A e}, struct{a e; B e}, *struct{A e}, struct{A e; B e}} over level k; top-level structs with 0..3 fields, every field exported or unexported in every position, " +
 			"all 1- and 2-field structs over level 1, 3-field structs (thorough: full level 1; quick: 12-type subset), level 2 alone and next to level-1 / level-2 neighbours in both orders, level 3 (and a thinned level 4 on thorough); " +
 			"values: 4 profiles per type (all zero / nil; one entry; two-three entries with nested zero values and nil pointers; empty non-nil collections) plus alternative floats, extremes of every integer width; each as T and *T; " +
-			"plus fixed named types; oracle: json.Valid and the independent RFC 8259 recogniser accept the output; decoded with UseNumber it equals the standard encoder's document after bool -> \"true\"/\"false\", null slice -> [], null map -> {}, numbers compared by value; " +
+			"plus fixed named types and long collections (31..130 elements of 14 element types in a slice, an int-keyed and a string-keyed map, followed by further struct fields); oracle: json.Valid and the independent RFC 8259 recogniser accept the output; decoded with UseNumber it equals the standard encoder's document after bool -> \"true\"/\"false\", null slice -> [], null map -> {}, numbers compared by value; " +
 			"transitions = dumper calls; non-trivial = types containing an empty struct, a map, a bool or a leading unexported field",
 		Assumptions: []string{"excluded by the statement: interface fields, pointers to scalars, time.Time, func/chan, strings needing escapes; additionally not generated: arrays, []uint8 (base64 in the standard encoder), embedded fields (flattened by the standard encoder), pointers to pointers, float32 values that are not dyadic, json struct tags",
 			"encoding/json is the standard encoder"},
